@@ -189,13 +189,14 @@ theorem get_of_nodes {a b : Tree} (h : a.nodes = b.nodes) (n : Nat) : a.get n = 
     satisfies the tree invariant, has as many volumes as the original, volume `k` of the new tree
     denotes exactly what volume `k` of the original tree denotes under every sense assignment,
     and every negation in the new tree points at a surface or at `True`. -/
-theorem transformNegatedJoins_sound {t t' : Tree} (pre : DMPre t) (inv : TreeInv t)
-    (hsmall : 3 * t.size + 2 ≤ invalid)
+theorem transformNegatedJoins_sound' {t t' : Tree} (pre : DMPre t) (hstruct : Struct t)
+    (hsorted : Sorted t) (hsmall : 3 * t.size + 2 ≤ invalid)
     (h : transformNegatedJoins t = .ok t') :
     TreeInv t' ∧ t'.volumes.length = t.volumes.length ∧
     (∀ k (hk : k < t.volumes.length) (hk' : k < t'.volumes.length) σ,
       denote t' σ (t'.volumes[k]) = denote t σ (t.volumes[k])) ∧
-    (∀ i u, i < t'.size → t'.get i = .negated u → IsLeaf (t'.get u)) := by
+    (∀ i u, i < t'.size → t'.get i = .negated u → IsLeaf (t'.get u)) ∧
+    (∀ x ∈ t'.volumes, x < t'.size) := by
   unfold transformNegatedJoins at h
   cases hfj : findJoinNegations t with
   | error e => rw [hfj] at h; cases h
@@ -210,14 +211,14 @@ theorem transformNegatedJoins_sound {t t' : Tree} (pre : DMPre t) (inv : TreeInv
       simp only at h
       have h0 : DMInv t Tree.empty (fun _ => ({} : Matching)) :=
         ⟨empty_built, fun i => trOk_default t Tree.empty i, rfl⟩
-      have hinv := dmLoop_inv pre inv.sorted inv.struct (findJoinNegations_flagsOk pre hfj)
+      have hinv := dmLoop_inv pre hsorted hstruct (findJoinNegations_flagsOk pre hfj)
         (List.range t.size) ⟨Tree.empty, fun _ => {}⟩ st h0
         (fun i hi => List.mem_range.1 hi)
         (by simp only [List.length_range]; show 2 + 3 * t.size ≤ invalid; omega) hl
       rcases dmVolumes_spec st.tr t.volumes st.result t' h with ⟨hn, hids, hv, hvalid⟩
       rw [hinv.vol, List.nil_append] at hv
       have hsz : t'.size = st.result.size := by unfold Tree.size; rw [hn]
-      refine ⟨?_, by rw [hv, List.length_map], ?_, ?_⟩
+      refine ⟨?_, by rw [hv, List.length_map], ?_, ?_, ?_⟩
       · exact treeInv_of_nodes_ids hn hids hinv.built.inv
       · intro k hk hk' σ
         have : t'.volumes[k] = (st.tr (t.volumes[k])).equivalent := by
@@ -228,6 +229,21 @@ theorem transformNegatedJoins_sound {t t' : Tree} (pre : DMPre t) (inv : TreeInv
       · intro i u hi hg
         rw [get_of_nodes hn] at hg ⊢
         exact hinv.built.negOk i u (by rw [← hsz]; exact hi) hg
+      · intro x hx
+        rw [hv, List.mem_map] at hx
+        rcases hx with ⟨v0, hv0, rfl⟩
+        rw [hsz]
+        exact (equivalent_sound (hinv.tr _) (hvalid _ hv0)).1
+
+theorem transformNegatedJoins_sound {t t' : Tree} (pre : DMPre t) (inv : TreeInv t)
+    (hsmall : 3 * t.size + 2 ≤ invalid)
+    (h : transformNegatedJoins t = .ok t') :
+    TreeInv t' ∧ t'.volumes.length = t.volumes.length ∧
+    (∀ k (hk : k < t.volumes.length) (hk' : k < t'.volumes.length) σ,
+      denote t' σ (t'.volumes[k]) = denote t σ (t.volumes[k])) ∧
+    (∀ i u, i < t'.size → t'.get i = .negated u → IsLeaf (t'.get u)) :=
+  have := transformNegatedJoins_sound' pre inv.struct inv.sorted hsmall h
+  ⟨this.1, this.2.1, this.2.2.1, this.2.2.2.1⟩
 
 /-- the executable precondition check of the drivers implies the propositional precondition -/
 theorem dmPre_of_precondition {t : Tree} (h : demorganPrecondition t = true) : DMPre t := by
